@@ -43,7 +43,7 @@ def helper_digests():
 
 ORG = ['B', 'C', 'N', 'O', 'P', 'S', 'F', 'Cl', 'Br', 'I']
 AROM = ['b', 'c', 'n', 'o', 'p', 's']
-BRACKET_BODIES = ['CH2', 'NH3+', 'O-', 'Si', 'Na+', '13CH4', 'C@@H', 'Fe+2', 'nH', 'Cl-', 'H', 'OH-', 'Mg+2',
+BRACKET_BODIES = ['*', 'CH2', 'NH3+', 'O-', 'Si', 'Na+', '13CH4', 'C@@H', 'Fe+2', 'nH', 'Cl-', 'H', 'OH-', 'Mg+2',
                   'CH3', 'Br-', 'C@H', 'N+', 'SiH2', 'se', 'Na', 'C', 'H+', '2H', 'NH+', 'S@@', 'CH-', 'Si@', 'Mg']
 NAMES = ['A', 'B', 'PEO', 'TC4', 'OT1', 'SC3', 'a1', 'X_1', 'PS', 'N3', 'Cl', 'Br', 'Na', 'H']
 FLOATS = ['0.5', '2', '1e-1', '.5', '-1.0', '3.25', '1', '0', '12.011', '1E2', '+2.5']
@@ -97,8 +97,10 @@ class Builder:
             self.toks.append(['K', '#' + rng.choice(NAMES), ann if ann != '' else None])
         else:
             r = rng.random()
-            if r < 0.6:
+            if r < 0.56:
                 self.toks.append(['A', rng.choice(ORG)])
+            elif r < 0.6:
+                self.toks.append(['A', '*'])                 # the SMILES wildcard atom, written without brackets
             elif r < 0.7:
                 self.toks.append(['A', rng.choice(AROM)])
             else:
@@ -417,14 +419,14 @@ class C13(common.Prop):
     vo_deps = ['theories/Frag/StripCheck.vo']
     prop_file = 'theories/Properties/C13.v'
     case_requires = ('From Coq Require Import String.\nFrom Coq Require Import List Ascii ZArith Bool.\n'
-                     'From CGV Require Import Base.PyBase Base.PyVal Frag.NDict Frag.StripImpl Frag.FragText Frag.FragTextX Frag.SmilesParse Frag.Template Frag.TemplateFinal Frag.TemplateChiral Frag.StripCheck.')
+                     'From CGV Require Import Base.PyBase Base.PyVal Frag.NDict Frag.StripImpl Frag.FragText Frag.FragTextX Frag.FragTextW Frag.SmilesParse Frag.Template Frag.TemplateFinal Frag.TemplateChiral Frag.StripCheck.')
     quick_cases = 2400
     thorough_cases = 40000
     extended_cases = 12000
     shard = 200
     fail_text = dict([(c + 10 * k, CLAUSES[c] + (' [input in defect class %s]' % CLASSES[k] if k else ''))
                       for c in CLAUSES for k in (0, 3)] +
-                     [(97, 'harness: generated tokens are outside the stated domain (wfx)'),
+                     [(97, 'harness: generated tokens are outside the stated domain (wfw)'),
                       (98, 'harness: python and Coq render the tokens differently')])
 
     # -- cases -----------------------------------------------------------------------------
@@ -468,6 +470,12 @@ class C13(common.Prop):
             plain([C, ['('], C, O, C, [')'], C, C, C], {3: [D(label='1')], 4: [D(label='2')], 7: [D(label='3')]}),
             plain([C, C, ['('], ['/', False], A('F'), [')']], {5: [D('<', sym='=')]}, lead=[D('>')]),
             plain([A('Cl'), A('c'), A('c')], {1: [D()], 2: [D()]}),
+            # the wildcard atom, bare and in brackets
+            plain([C, A('*'), C], {2: [D()]}, lead=[D()]),                            # [$]C*C[$]
+            plain([A('*'), C, ['('], A('*'), [')'], A('Cl')], {0: [D(label='a')], 3: [D('>', sym='=')], 5: [D('<', 'x')]}),
+            plain([C, K('*'), C, A('*')], {1: [D()], 3: [D('>', '1', '#')]}),             # C[*][$]C*#[>1]
+            plain([A('*')], {0: [D('!')]}),                                            # *[!]
+            plain([C, A('*'), R('1'), C, C, R('1'), A('*')], {2: [D()], 6: [D('<')]}),
             plain([C, O, K('C', '0.5'), ['('], K('H', '0.1'), [')'], K('H', '0.2')], {2: [D()]}, lead=[D()]),
             plain([K('#TC4'), K('#OT1', 'r=abc'), K('#CD1')], {2: [D()]}, lead=[D()]),
             plain([C, R('%12'), C, C, R('%12')], {1: [D(sym='#'), D('!', 'a1')]}),
